@@ -509,7 +509,11 @@ class Sim:
                 fut = Future()
                 self._work.append((fut, fn, args, kwargs))
                 sim.log("pool.submit", None, pool=self._prefix)
-                if self._idle == 0 and len(self._workers) < self._max:
+                # like concurrent.futures: reuse a worker that went idle after finishing a task
+                # (the idle semaphore is released only then), otherwise start a new one
+                if self._idle > 0:
+                    self._idle -= 1
+                elif len(self._workers) < self._max:
                     idx = len(self._workers)
                     lt = sim.spawn(self._worker, f"{self._prefix}{self._pid}_{idx}")
                     self._workers.append(lt)
@@ -517,10 +521,12 @@ class Sim:
                 return fut
 
             def _worker(self):
+                first = True
                 while True:
-                    self._idle += 1
+                    if not first:
+                        self._idle += 1
+                    first = False
                     sim.block_until(lambda: bool(self._work) or self._shutdown)
-                    self._idle -= 1
                     if not self._work:
                         return
                     fut, fn, args, kwargs = self._work.popleft()
